@@ -624,3 +624,173 @@ Proof.
   intros Hi Hj. destruct (hist_sound ctx ops) as [E|C]; [left|right; exact C].
   rewrite E. rewrite (map_nth_error (hist_uncached ctx) _ _ Hi), (map_nth_error (hist_uncached ctx) _ _ Hj). reflexivity.
 Qed.
+
+(** * the expansion-number rule (ComputeExpansionNumber): the genesis shortcut belongs to slice [0,0] only *)
+Definition matured (i : pt_info) : bool := pt_threshold i =? tree_expansion_trigger_window + tree_expansion_wait_count.
+
+(* the whole rule, read off as a specification *)
+Lemma expansion_of_spec l00 i x : expansion_of l00 i = Some x <->
+  pt_found i = true /\
+  ((pt_genesis i && l00 = true /\ x = pt_expansion i) \/
+   (pt_genesis i && l00 = false /\ matured i = true /\ x = u8 (pt_expansion i + 1)) \/
+   (pt_genesis i && l00 = false /\ matured i = false /\ ppt_found i = true /\ x = ppt_expansion i)).
+Proof.
+  unfold expansion_of, matured.
+  destruct (pt_found i); cbn [negb].
+  2:{ split; [discriminate | intros [F _]; discriminate]. }
+  destruct (pt_genesis i && l00).
+  { split; [intros [= <-]; split; [reflexivity | left; split; reflexivity]
+           | intros [_ [[_ ->] | [[F _] | [F _]]]]; [reflexivity | discriminate | discriminate]]. }
+  destruct (pt_threshold i =? tree_expansion_trigger_window + tree_expansion_wait_count).
+  { split; [intros [= <-]; split; [reflexivity | right; left; repeat split]
+           | intros [_ [[F _] | [[_ [_ ->]] | [_ [F _]]]]]; [discriminate | reflexivity | discriminate]]. }
+  destruct (ppt_found i); cbn [negb].
+  { split; [intros [= <-]; split; [reflexivity | right; right; repeat split]
+           | intros [_ [[F _] | [[_ [F _]] | [_ [_ [_ ->]]]]]]; [discriminate | discriminate | reflexivity]]. }
+  split; [discriminate | intros [_ [[F _] | [[_ [F _]] | [_ [_ [F _]]]]]]; discriminate].
+Qed.
+
+(* outside slice [0,0] it is irrelevant whether the terminus is a genesis block *)
+Lemma expansion_of_other_slice_ignores_genesis f g e t pf pe g' :
+  expansion_of false (mkPT f g e t pf pe) = expansion_of false (mkPT f g' e t pf pe).
+Proof. unfold expansion_of; cbn. rewrite !andb_false_r. reflexivity. Qed.
+
+Definition terminus_view (e : env) (p : header) : pt_info :=
+  if parent_is_prime p then e_pt_self e else e_pt_ref e.
+
+Lemma expected_expansion_view e p o ie : calc_order p = CoOk ie o ->
+  expected_expansion e p = expansion_of (loc00 e) (terminus_view e p).
+Proof.
+  intros H. unfold expected_expansion, expected_expansion_of, terminus_view, parent_is_prime, is_prime_of.
+  rewrite H. cbn. reflexivity.
+Qed.
+
+Lemma valid_child_expansion_view e p c : valid_child e p c = true ->
+  expansion_of (loc00 e) (terminus_view e p) = Some (h_expansion c).
+Proof.
+  intros V. apply valid_child_rules in V.
+  assert (O : rule_parent_order p = true) by tauto.
+  assert (X : rule_expansion e p c = true) by tauto.
+  unfold rule_parent_order, rule_parent_order_of, order_of in O.
+  destruct (calc_order p) as [ie o | |] eqn:E; try discriminate.
+  apply opt_eqb_true in X. rewrite (expected_expansion_view e p o ie E) in X. exact X.
+Qed.
+
+Lemma u8_succ_ne x : 0 <= x < 256 -> u8 (x + 1) <> x.
+Proof.
+  intros B. unfold u8. destruct (Z.eq_dec x 255) as [-> | N]; [vm_compute; discriminate |].
+  rewrite Z.mod_small by lia. lia.
+Qed.
+
+(* a child of a block whose prime terminus matured, in any slice other than [0,0], carries the NEXT expansion number:
+   the old one (what the [0,0] shortcut would hand down from a genesis terminus) is rejected, genesis or not *)
+Lemma matured_terminus_other_slice e p c : valid_child e p c = true -> loc00 e = false ->
+  matured (terminus_view e p) = true -> 0 <= pt_expansion (terminus_view e p) < 256 ->
+  h_expansion c = u8 (pt_expansion (terminus_view e p) + 1) /\ h_expansion c <> pt_expansion (terminus_view e p).
+Proof.
+  intros V L M B. pose proof (valid_child_expansion_view e p c V) as X. rewrite L in X.
+  apply expansion_of_spec in X. rewrite andb_false_r in X.
+  destruct X as [_ [[F _] | [[_ [_ ->]] | [_ [F _]]]]]; try discriminate.
+  - split; [reflexivity | apply u8_succ_ne; exact B].
+  - rewrite M in F. discriminate.
+Qed.
+
+(* in slice [0,0] a genesis terminus hands its expansion number down unchanged, matured or not *)
+Lemma genesis_terminus_original_slice e p c : valid_child e p c = true -> loc00 e = true ->
+  pt_genesis (terminus_view e p) = true -> h_expansion c = pt_expansion (terminus_view e p).
+Proof.
+  intros V L G. pose proof (valid_child_expansion_view e p c V) as X. rewrite L in X.
+  apply expansion_of_spec in X. rewrite G in X. cbn in X.
+  destruct X as [_ [[_ ->] | [[F _] | [F _]]]]; [reflexivity | discriminate | discriminate].
+Qed.
+
+(** * VerifyHeader / AppendHeader and the block store *)
+Lemma store_run_v_eq e p c : forall ops st,
+  store_run_v (valid_child_fast e p c) st ops = store_run (Some (e, p)) c st ops.
+Proof.
+  induction ops as [| op ops IH]; intros st; [reflexivity |].
+  destruct op; cbn [store_run_v store_run store_step fst snd]; rewrite IH; try reflexivity;
+    destruct st; reflexivity.
+Qed.
+Lemma store_run_fast_eq e p c ops : store_run_fast e p c ops = store_run (Some (e, p)) c StUnknown ops.
+Proof. unfold store_run_fast. cbv zeta. apply store_run_v_eq. Qed.
+
+(* a stored candidate is verified exactly like a header never seen before *)
+Lemma verify_top_ignores_candidate par c : verify_header_top StCandidate par c = verify_header_top StUnknown par c.
+Proof. reflexivity. Qed.
+
+Lemma verify_top_sound st e p c : verify_header_top st (Some (e, p)) c = true ->
+  st = StAppended \/ valid_child e p c = true.
+Proof. destruct st; cbn; rewrite ?valid_child_fast_eq; auto. Qed.
+
+Definition not_commit (op : store_op) : bool := match op with SoCommit => false | _ => true end.
+
+(* every verdict of every history of VerifyHeader / AppendHeader calls, candidate writes, purges and restarts on a
+   header that is not part of the chain is the verdict of verifyHeader on (parent, child) *)
+Lemma store_run_verdicts e p c : forall ops st, st <> StAppended -> forallb not_commit ops = true ->
+  Forall (fun o => o = None \/ o = Some (valid_child e p c)) (store_run (Some (e, p)) c st ops).
+Proof.
+  induction ops as [| op ops IH]; intros st NA NC; [constructor |].
+  cbn [forallb] in NC. apply andb_prop in NC as [N1 N2].
+  destruct op; cbn [store_run store_step fst snd]; try discriminate; constructor;
+    try (left; reflexivity); try (apply IH; assumption).
+  - right. destruct st; cbn; rewrite ?valid_child_fast_eq; try reflexivity. contradiction.
+  - right. destruct st; cbn; rewrite ?valid_child_fast_eq; try reflexivity. contradiction.
+  - apply IH; [destruct st; try discriminate; contradiction | assumption].
+Qed.
+
+(* the node: whatever was stored as a candidate, in whatever order, a header enters the chain only as a valid child
+   of the stored parent it was verified against *)
+Definition accepted_by (look : header -> option (env * header)) (x : Z) : Prop :=
+  exists c e p, h_hash c = x /\ look c = Some (e, p) /\ valid_child e p c = true.
+
+Lemma existsb_eqb_in x l : existsb (Z.eqb x) l = true -> In x l.
+Proof. intros H. apply existsb_exists in H as [y [I E]]. apply Z.eqb_eq in E. subst. exact I. Qed.
+
+Lemma node_step_appended look s0 s op :
+  (forall x, In x (ns_appended s) -> In x (ns_appended s0) \/ accepted_by look x) ->
+  forall x, In x (ns_appended (node_step look s op)) -> In x (ns_appended s0) \/ accepted_by look x.
+Proof.
+  intros INV x. destruct op as [c | c |]; cbn [node_step]; try (apply INV).
+  destruct (verify_header_top (status_of s c) (look c) c) eqn:V; [| apply INV].
+  cbn [ns_appended]. intros [<- | I]; [| apply INV; exact I].
+  unfold status_of in V. destruct (existsb (Z.eqb (h_hash c)) (ns_appended s)) eqn:A.
+  { apply INV. apply existsb_eqb_in. exact A. }
+  assert (V' : verify_header_top StUnknown (look c) c = true)
+    by (destruct (existsb (Z.eqb (h_hash c)) (ns_candidates s)); exact V).
+  cbn in V'. destruct (look c) as [[e p] |] eqn:L; [| discriminate].
+  right. exists c, e, p. rewrite valid_child_fast_eq in V'. auto.
+Qed.
+
+Lemma node_run_appended look s0 : forall ops s,
+  (forall x, In x (ns_appended s) -> In x (ns_appended s0) \/ accepted_by look x) ->
+  forall x, In x (ns_appended (node_run look s ops)) -> In x (ns_appended s0) \/ accepted_by look x.
+Proof.
+  unfold node_run. induction ops as [| op ops IH]; intros s INV; [exact INV |].
+  cbn [fold_left]. apply IH. apply node_step_appended. exact INV.
+Qed.
+
+Lemma node_appends_valid look s0 ops x :
+  In x (ns_appended (node_run look s0 ops)) -> In x (ns_appended s0) \/ accepted_by look x.
+Proof. apply node_run_appended. intros y I; left; exact I. Qed.
+
+(* the chain the node builds does not depend on which candidates were stored, nor when *)
+Definition is_write (op : node_op) : bool := match op with NWrite _ => true | _ => false end.
+
+Lemma status_appended_only s s' c : ns_appended s = ns_appended s' ->
+  verify_header_top (status_of s c) = verify_header_top (status_of s' c).
+Proof.
+  intros E. unfold status_of. rewrite E. destruct (existsb (Z.eqb (h_hash c)) (ns_appended s')); [reflexivity |].
+  destruct (existsb _ (ns_candidates s)), (existsb _ (ns_candidates s')); reflexivity.
+Qed.
+
+Lemma node_run_ignores_writes look : forall ops s s', ns_appended s = ns_appended s' ->
+  ns_appended (node_run look s ops) = ns_appended (node_run look s' (filter (fun o => negb (is_write o)) ops)).
+Proof.
+  unfold node_run. induction ops as [| op ops IH]; intros s s' E; [exact E |].
+  destruct op as [c | c |]; cbn [filter is_write negb fold_left].
+  - apply IH. cbn. exact E.
+  - apply IH. cbn [node_step]. rewrite (status_appended_only s s' c E).
+    destruct (verify_header_top (status_of s' c) (look c) c); cbn; [rewrite E; reflexivity | exact E].
+  - apply IH. exact E.
+Qed.
